@@ -351,9 +351,19 @@ def run_real(scn: Scn, model=None):
                     except StubFault as e:
                         lines.append(f"raise:{e.kind} " + dump(cal, scn))
                         info["exc"].append(e.kind)
+                    except Exception as e:  # noqa: BLE001  (an exception of the code under test, reported as an outcome)
+                        try:
+                            d = dump(cal, scn)
+                        except Exception as e2:  # noqa: BLE001
+                            d = f"undumpable:{type(e2).__name__}"
+                        lines.append(f"raise:{type(e).__name__}:{str(e)[:60].replace(' ', '_')} " + d)
+                        info["exc"].append(type(e).__name__)
                 elif op[0] == "K":
-                    cal.create_checkpoint(folder)
-                    lines.append("ok " + dump(cal, scn))
+                    try:
+                        cal.create_checkpoint(folder)
+                        lines.append("ok " + dump(cal, scn))
+                    except Exception as e:  # noqa: BLE001
+                        lines.append(f"raise:{type(e).__name__}:{str(e)[:60].replace(' ', '_')} n=? b=?")
                 elif op[0] == "R":
                     if not os.path.exists(os.path.join(folder, "calibration_params.json")):
                         lines.append("no-checkpoint")
